@@ -178,6 +178,7 @@ var specC39d = vstat.Spec[c39Case]{
 	Gen:         genC39d,
 	Check:       checkC39d,
 	Inflight:    true,
+	Confirm:     true,
 }
 
 func TestC39Daemon(t *testing.T)       { vstat.Check(t, specC39d) }
